@@ -54,6 +54,11 @@ inductive Val where
   | text
   | str (s : String)
   | lessZ
+  /-- a string known by its grapheme clusters, each by the characters `ctx.Characters` gives for it (TextField's value) -/
+  | clusters (l : List (List Cell))
+  /-- `&vxfw.CursorState{…}` (the cursor is not modelled) -/
+  | cursorV
+  | tup4 (a b c d : Val)
   /-- `text.New(label)` with the style assigned to it afterwards (`l.Style = style`) -/
   | label (st : Option Nat)
   /-- `center.Center{Child: child}` -/
@@ -312,6 +317,15 @@ def applyFn (R : Ro) (f : String) (args : List Val) : Except Err Val :=
     (match args with
      | [.win w, .int c, .int r, .int cols, .int rows] => .ok (.win (w.new c r cols rows))
      | _ => .error (.stuck "Window.New"))
+  else if f = "lit:vxfw.CursorState" then .ok .cursorV
+  else if f = "len" then
+    -- only compared with 0: the number of grapheme clusters (each is a non-empty string)
+    (match args with | [.clusters l] => .ok (.int (Int.ofNat l.length)) | _ => .error (.stuck "len"))
+  else if f = "uniseg.FirstGraphemeClusterInString" then
+    (match args with
+     | [.clusters (c :: r), _] => .ok (.tup4 (.strOf c) (.clusters r) (.int 0) (.int 0))
+     | [.clusters [], _] => .ok (.tup4 (.strOf []) (.clusters []) (.int 0) (.int 0))
+     | _ => .error (.stuck "FirstGraphemeClusterInString"))
   else if f = "less:ZIndex" then .ok .lessZ
   else match R.self f args with
     | some r => r
@@ -322,6 +336,7 @@ def evalCon (n : String) : Except Err Val :=
   else if n = "false" then .ok (.bool false)
   else if n = "nil" then .ok .nil
   else if n = "math.MaxUint16" then .ok (.int 65535)
+  else if n = "vaxis.CursorBlock" then .ok (.int 0)
   else .error (.stuck ("constant " ++ n))
 
 /-- Expressions.  A curried call evaluates to a partial application `papp` that `app` closes. -/
@@ -334,6 +349,8 @@ def evalE (R : Ro) (ρ : Env) : Ex → Except Err Val
   | .un op a =>
     (match evalE R ρ a with
      | .ok (.bool b) => if op = "!" then .ok (.bool (!b)) else .error (.stuck ("unary " ++ op))
+     | .ok (.int i) => if op = "-" then .ok (.int (-i)) else .error (.stuck ("unary " ++ op))
+     | .ok .cursorV => if op = "&" then .ok .cursorV else .error (.stuck ("unary " ++ op))
      | .ok _ => .error (.stuck ("unary " ++ op))
      | .error e => .error e)
   | .bin op a b =>
@@ -381,6 +398,7 @@ def setField (v : Val) (f : String) (x : Val) : Except Err Val :=
   match v, x with
   | .surf (.mk w h b _), .kids k => if f = "Children" then .ok (.surf (.mk w h b k)) else .error (.stuck ("set Surface." ++ f))
   | .surf s, .wid _ => if f = "Widget" then .ok (.surf s) else .error (.stuck ("set Surface." ++ f))
+  | .surf s, .cursorV => if f = "Cursor" then .ok (.surf s) else .error (.stuck ("set Surface." ++ f))
   | .size w h, .u16 n =>
     if f = "Width" then .ok (.size n h) else if f = "Height" then .ok (.size w n) else .error (.stuck ("set Size." ++ f))
   | .label _, .sty st => if f = "Style" then .ok (.label (some st)) else .error (.stuck ("set Text." ++ f))
@@ -390,6 +408,11 @@ def setField (v : Val) (f : String) (x : Val) : Except Err Val :=
 def assignTo (R : Ro) (m : M) (lhs : Ex) (v : Val) : Except Err M :=
   match lhs with
   | .var x => .ok { m with ρ := m.ρ.set x v }
+  | .sel (.sel (.var x) "Cursor") _ =>
+    -- `s.Cursor.Col = col`: the cursor is not modelled
+    (match m.ρ.get x, v with
+     | some (.surf _), .u16 _ => .ok m
+     | _, _ => .error (.stuck "cursor store"))
   | .sel (.var x) f =>
     (match m.ρ.get x with
      | some old => (match setField old f v with | .ok nv => .ok { m with ρ := m.ρ.set x nv } | .error e => .error e)
@@ -467,7 +490,7 @@ def callHead : Ex → Option (String × Ex)
 
 def zeroOf (ty : String) : Except Err Val :=
   if ty = "uint16" then .ok (.u16 0)
-  else if ty = "int" then .ok (.int 0)
+  else if ty = "int" ∨ ty = "uint" then .ok (.int 0)
   else if ty = "vxfw.Size" ∨ ty = "Size" then .ok (.size 0 0)
   else if ty = "vaxis.Style" then .ok (.sty 0)
   else .error (.stuck ("zero value of " ++ ty))
@@ -537,6 +560,12 @@ def exec (R : Ro) : St → M → Res
      | .ok (.tup a b) => .ok ({ m with ρ := bindLoopVar (bindLoopVar m.ρ x a) y b }, .norm)
      | .ok _ => .error (.stuck "define2: not a pair")
      | .error e => .error e)
+  | .assign4 a b c d rhs, m =>
+    (match evalE R m.ρ rhs with
+     | .ok (.tup4 va vb vc vd) =>
+       .ok ({ m with ρ := bindLoopVar (bindLoopVar (bindLoopVar (bindLoopVar m.ρ a va) b vb) c vc) d vd }, .norm)
+     | .ok _ => .error (.stuck "assign4: not four values")
+     | .error e => .error e)
   | .opAssign op lhs rhs, m =>
     (match evalE R m.ρ lhs, evalE R m.ρ rhs with
      | .ok a, .ok b =>
@@ -567,6 +596,11 @@ def exec (R : Ro) : St → M → Res
               | .ok (m', .norm) => .ok ({ m' with ρ := m'.ρ.set x (.scanner txt [] []) }, .norm)
               | r => r)
            | _ => .error (.stuck "Scan of a non-scanner"))
+        | _ => .error (.stuck "for condition"))
+     | .bin ">" (.app (.arg (.fn "len") (.var x))) (.int 0) =>
+       -- `for len(x) > 0 { … }`: at most one iteration per grapheme cluster of `x` (more = the Go loop would not end)
+       (match m.ρ.get x with
+        | some (.clusters l) => loopW R body m.ρ.length c (l.length + 1) m
         | _ => .error (.stuck "for condition"))
      | _ => .error (.stuck "for condition"))
   | .range k v coll body, m =>
@@ -610,6 +644,23 @@ def loopS (R : Ro) (body : St) (n : Nat) (b : Bind) : List Val → Nat → M →
     | .ok (m', .brk) => .ok (m', .norm)
     | r => r
 termination_by items _ _ => (sizeOf body, items.length + 1)
+decreasing_by all_goals simp_wf; all_goals (first | (apply Prod.Lex.right; omega) | (apply Prod.Lex.right; simp))
+
+/-- `for cond { body }` with fuel: the condition is evaluated before every iteration. -/
+def loopW (R : Ro) (body : St) (n : Nat) (c : Ex) : Nat → M → Res
+  | 0, _ => .error (.stuck "loop does not end")
+  | fuel + 1, m =>
+    match evalE R m.ρ c with
+    | .ok (.bool false) => .ok (m, .norm)
+    | .ok (.bool true) =>
+      (match leave n (exec R body m) with
+       | .ok (m', .norm) => loopW R body n c fuel m'
+       | .ok (m', .cont) => loopW R body n c fuel m'
+       | .ok (m', .brk) => .ok (m', .norm)
+       | r => r)
+    | .ok _ => .error (.stuck "loop condition")
+    | .error e => .error e
+termination_by fuel _ => (sizeOf body, fuel + 1)
 decreasing_by all_goals simp_wf; all_goals (first | (apply Prod.Lex.right; omega) | (apply Prod.Lex.right; simp))
 end
 
